@@ -13,9 +13,11 @@ import (
 	"fortio.org/terminal"
 	"grol.io/grol/repl"
 	"grol.io/grol/trie"
+	"verifharness/common"
+	. "verifharness/common"
 )
 
-func init() { props["C20"] = runC20 }
+func main() { common.Main("C20", runC20) }
 
 func c20Words(alpha []byte, maxLen int) [][]byte {
 	var ws [][]byte
@@ -64,7 +66,7 @@ func c20One(c *Ctx, words [][]byte, queries [][]byte) {
 		if len(w) == 0 {
 			wparts = append(wparts, "e")
 		} else {
-			wparts = append(wparts, hx(w))
+			wparts = append(wparts, Hx(w))
 		}
 	}
 	wl := "-"
@@ -77,19 +79,19 @@ func c20One(c *Ctx, words [][]byte, queries [][]byte) {
 		qs := string(q)
 		// membership
 		got := t.Contains(qs)
-		qparts = append(qparts, "C:"+hx(q))
+		qparts = append(qparts, "C:"+Hx(q))
 		oparts = append(oparts, fmt.Sprintf("C=%d", b2i(got)))
 		want := set[qs]
 		if got != want {
-			c.Fail("contains-mismatch", "TRIE "+wl+" C:"+hx(q), fmt.Sprintf("Contains=%v want %v", got, want))
+			c.Fail("contains-mismatch", "TRIE "+wl+" C:"+Hx(q), fmt.Sprintf("Contains=%v want %v", got, want))
 		}
 		// prefix enumeration
 		l, res := t.PrefixAll(qs)
 		var hres []string
 		for _, r := range res {
-			hres = append(hres, hx([]byte(r)))
+			hres = append(hres, Hx([]byte(r)))
 		}
-		qparts = append(qparts, "Q:"+hx(q))
+		qparts = append(qparts, "Q:"+Hx(q))
 		oparts = append(oparts, fmt.Sprintf("Q=%d:%s", l, strings.Join(hres, ",")))
 		var exp []string
 		for w := range set {
@@ -99,21 +101,21 @@ func c20One(c *Ctx, words [][]byte, queries [][]byte) {
 		}
 		sort.Strings(exp)
 		if strings.Join(exp, "\x00|") != strings.Join(res, "\x00|") || len(exp) != len(res) {
-			c.Fail("prefixall-set-mismatch", "TRIE "+wl+" Q:"+hx(q), fmt.Sprintf("got %q want %q", res, exp))
+			c.Fail("prefixall-set-mismatch", "TRIE "+wl+" Q:"+Hx(q), fmt.Sprintf("got %q want %q", res, exp))
 		} else if len(exp) > 0 && l != lcpLen(exp) {
-			c.Fail("prefixall-lcp-mismatch", "TRIE "+wl+" Q:"+hx(q), fmt.Sprintf("got %d want %d", l, lcpLen(exp)))
+			c.Fail("prefixall-lcp-mismatch", "TRIE "+wl+" Q:"+Hx(q), fmt.Sprintf("got %d want %d", l, lcpLen(exp)))
 		}
 		// completion callback
 		var buf bytes.Buffer
 		nl, np, ok := cb(&terminal.Terminal{Out: &buf}, qs, len(qs), '\t')
-		qparts = append(qparts, "T:"+hx(q))
+		qparts = append(qparts, "T:"+Hx(q))
 		if !ok {
 			oparts = append(oparts, "T=none")
 			if len(exp) != 0 {
-				c.Fail("completion-missing", "TRIE "+wl+" T:"+hx(q), "no completion although candidates exist")
+				c.Fail("completion-missing", "TRIE "+wl+" T:"+Hx(q), "no completion although candidates exist")
 			}
 		} else {
-			oparts = append(oparts, fmt.Sprintf("T=%s:%d", hx([]byte(nl)), np))
+			oparts = append(oparts, fmt.Sprintf("T=%s:%d", Hx([]byte(nl)), np))
 			bad := !strings.HasPrefix(nl, qs) || np != len(nl)
 			for _, w := range exp {
 				if !strings.HasPrefix(w, nl) {
@@ -121,11 +123,11 @@ func c20One(c *Ctx, words [][]byte, queries [][]byte) {
 				}
 			}
 			if bad || len(exp) == 0 {
-				c.Fail("completion-not-extension", "TRIE "+wl+" T:"+hx(q), fmt.Sprintf("typed %q -> %q, candidates %q", qs, nl, exp))
+				c.Fail("completion-not-extension", "TRIE "+wl+" T:"+Hx(q), fmt.Sprintf("typed %q -> %q, candidates %q", qs, nl, exp))
 			}
 		}
 		if len(exp) > 1 {
-			c.NonTrivial(wl + "|" + hx(q))
+			c.NonTrivial(wl + "|" + Hx(q))
 		}
 	}
 	c.Count(fmt.Sprintf("nwords=%d", len(words)))
@@ -260,13 +262,13 @@ func c20Replay(c *Ctx, cs string) {
 			if h == "e" {
 				words = append(words, nil)
 			} else {
-				words = append(words, unhx(h))
+				words = append(words, Unhx(h))
 			}
 		}
 	}
 	var qs [][]byte
 	for _, q := range f[2:] {
-		qs = append(qs, unhx(q[2:]))
+		qs = append(qs, Unhx(q[2:]))
 	}
 	c20One(c, words, qs)
 }
